@@ -74,6 +74,14 @@ CLAIMS = {
             "Lifecycle call sequences run against real loopback listeners while a turnstile installed at the verif schedule points parks accept loops at their exit, a connection between Accept and registration, connection goroutines before serving, Stop between its phases and Start after opening the listeners; all hold combinations are enumerated for sequences of up to three calls, longer sequences with client churn are drawn from rapid. The controller is event-driven: it waits for the arrivals an action causally guarantees, not for sleeps.",
             "Port release, client-side closure and registry emptiness are judged at Stop's return with parked goroutines still parked; 'no server goroutine remains' after a 5 s settle budget (a goroutine told to end but not yet scheduled is not a leak). If Stop does not wait for parked loop exits they are released after the next Start (60 ms probe - a scheduling aid, never a verdict).",
             "DESIGN.md 4/C15"),
+    "C09": ("complete enumeration of a finite configuration x credential x fault x order product on real loopback TCP/TLS with run-time generated certificates (+ rapid-drawn bursts in thorough); oracle = handler calls per client identity, disconnect of rejected clients, survivors still served",
+            "All 192 combinations of server configuration, client credential, handshake fault and order are run against a started server; handler calls are attributed to clients by unique keys and may only stem from clients whose chain verifies and whose leaf carries the configured name (after AUTH where a password is set); after each faulty client, and while a staller is still connected, a valid TLS client and a plain client must be served.",
+            "Key material comes from crypto/rand (affects no decision). The stall verdict needs a 5 s handshake timeout of the valid client AND a goroutine dump showing the TLS accept loop inside Handshake. On the plain port with rule+password only 'a reply frame came back' is asserted.",
+            "DESIGN.md 4/C09"),
+    "C19": ("fault-sequence property testing (rapid): deterministic endings on scripted connections + churn plans on real loopback TCP/TLS; oracle = per-connection closure/registry checks and resource counters (server goroutines, registry size, /proc/self/fd) returning to baseline",
+            "Every ending mode the property lists is injected - exact cut offsets, write failures and rejected certificates on scripted connections; FIN, RST, QUIT, malformed frames, peers that stop reading, failed TLS handshakes, rejected certificates and Server.Stop on real sockets with 1..32 connections in flight - and after each plan the goroutine, registry and descriptor counts must settle back to the values sampled before it.",
+            "The 5 s settle budget bounds the wait for in-flight kernel events; what is judged is the final state, with the leaked goroutines' stacks / descriptor targets attached.",
+            "DESIGN.md 4/C19"),
 }
 
 PENDING = {
